@@ -104,6 +104,8 @@ func menu(genesisCoinbase common.Uint256) *menuT {
 	hSide := sk.H("side-chain tx 1")
 	hSide2 := sk.H("side-chain tx 2")
 	hDep := sk.H("deposit tx 1")
+	hDep2 := sk.H("deposit tx 2")
+	hDep3 := sk.H("deposit tx 3")
 	draft := []byte("draft: build a bridge")
 	opinion := []byte("I agree")
 	sgOpinion := []byte("approved")
@@ -120,9 +122,12 @@ func menu(genesisCoinbase common.Uint256) *menuT {
 	xfer0 := sk.Transfer(3, ins(xfer.Hash(), 1), outs(sk.Out(addrC, 0)))
 	add(&op{name: "xfer0", txs: []interfaces.Transaction{xfer0}, needs: []string{"xfer"}})
 	add(&op{name: "w0", txs: []interfaces.Transaction{sk.WithdrawV0(4, ins(f, 3), addrA, 1000, hSide)}, conflicts: []string{"w1", "w2"}})
-	add(&op{name: "w1", txs: []interfaces.Transaction{sk.WithdrawV1(5, ins(f, 7), sk.WithdrawOut(addrB, 1000, hSide))}, conflicts: []string{"w0", "w2"}})
-	add(&op{name: "w2", txs: []interfaces.Transaction{sk.WithdrawV2(6, ins(f, 11), sk.WithdrawOut(addrC, 600, hSide), sk.WithdrawOut(addrC, 400, hSide2))}, conflicts: []string{"w0", "w1"}})
-	add(&op{name: "retdep", txs: []interfaces.Transaction{sk.ReturnDeposit(7, ins(f, 15), addrA, 1000, hDep)}})
+	// output order variants: every index that walks outputs sees an ordinary (change) output in
+	// front of, between and behind the outputs it records
+	add(&op{name: "w1", txs: []interfaces.Transaction{sk.WithdrawV1(5, ins(f, 7), sk.Out(addrA, 100), sk.WithdrawOut(addrB, 900, hSide))}, conflicts: []string{"w0", "w2"}})
+	add(&op{name: "w2", txs: []interfaces.Transaction{sk.WithdrawV2(6, ins(f, 11), sk.WithdrawOut(addrC, 600, hSide), sk.Out(addrA, 100), sk.WithdrawOut(addrC, 300, hSide2))}, conflicts: []string{"w0", "w1"}})
+	add(&op{name: "retdep", txs: []interfaces.Transaction{sk.ReturnDepositTx(7, ins(f, 15), sk.ReturnDepositOut(addrA, 900, hDep), sk.Out(addrB, 100))}})
+	add(&op{name: "retdep2", txs: []interfaces.Transaction{sk.ReturnDepositTx(17, ins(f, 19), sk.Out(addrB, 100), sk.ReturnDepositOut(addrA, 400, hDep2), sk.Out(addrC, 100), sk.ReturnDepositOut(addrA, 400, hDep3))}})
 	prop := sk.Proposal(8, ins(f, 1), outs(sk.Out(addrA, 1000)), draft)
 	add(&op{name: "prop", txs: []interfaces.Transaction{prop}})
 	add(&op{name: "rev1", txs: []interfaces.Transaction{sk.Review(9, ins(f, 2), outs(sk.Out(addrA, 1000)), prop.Hash(), 1, opinion)}, needs: []string{"prop"}})
@@ -145,7 +150,7 @@ func menu(genesisCoinbase common.Uint256) *menuT {
 
 	m.addrs = []common.Uint168{addrA, addrB, addrC, addrX, sk.MinerAddr}
 	m.sideH = []common.Uint256{hSide, hSide2}
-	m.depH = []common.Uint256{hDep}
+	m.depH = []common.Uint256{hDep, hDep2, hDep3}
 	m.drafts = []common.Uint256{common.Hash(draft), common.Hash(opinion), common.Hash(sgOpinion), common.Hash(msg1), common.Hash(msg2)}
 	m.txids = []common.Uint256{genesisCoinbase, f}
 	for _, o := range m.ops {
